@@ -364,6 +364,10 @@ func checkGeomBoundRaw(in orb.Geometry) error {
 
 // ---------------------------------------------------------------- Round
 
+// documentedDefaultFactor: "The default is 6 decimal places" (round.go). The harness's own constant, so that the
+// expectation does not move with orb.DefaultRoundingFactor.
+const documentedDefaultFactor = 1e6
+
 const roundDomain = 1e7 // |coordinate| <= 1e7 and factor <= 1e7: x*factor stays far below 2^53
 
 func inRoundDomain(g orb.Geometry) bool {
@@ -390,7 +394,7 @@ func roundWith(g orb.Geometry, factor int) orb.Geometry {
 func checkRound(g orb.Geometry, factor int) error {
 	f := float64(factor)
 	if factor == 0 {
-		f = orb.DefaultRoundingFactor
+		f = documentedDefaultFactor
 	}
 	sig0, bits0 := gen.Flatten(g)
 	out := roundWith(gen.DeepCopy(g), factor)
@@ -626,6 +630,19 @@ func modelUnion(a, b orb.Bound) orb.Bound {
 	}
 }
 
+// containsAgrees: IsEmpty and Contains of x against the harness's own definitions.
+func containsAgrees(x orb.Bound, probes []orb.Point) error {
+	if x.IsEmpty() != emptyB(x) {
+		return fmt.Errorf("%v.IsEmpty() = %v, want %v", x, x.IsEmpty(), emptyB(x))
+	}
+	for _, r := range probes {
+		if x.Contains(r) != modelContains(x, r) {
+			return fmt.Errorf("%v.Contains(%v) = %v, want %v", x, r, x.Contains(r), modelContains(x, r))
+		}
+	}
+	return nil
+}
+
 func checkBounds(c BoundCase) error {
 	a, b, cc := c.A.Bound(), c.B.Bound(), c.C.Bound()
 	p, q := c.P.Pt(), c.Q.Pt()
@@ -633,13 +650,8 @@ func checkBounds(c BoundCase) error {
 
 	// IsEmpty and Contains against the direct definitions
 	for _, x := range []orb.Bound{a, b, cc} {
-		if x.IsEmpty() != emptyB(x) {
-			return fmt.Errorf("%v.IsEmpty() = %v, want %v", x, x.IsEmpty(), emptyB(x))
-		}
-		for _, r := range probes {
-			if x.Contains(r) != modelContains(x, r) {
-				return fmt.Errorf("%v.Contains(%v) = %v, want %v", x, r, x.Contains(r), modelContains(x, r))
-			}
+		if err := containsAgrees(x, probes); err != nil {
+			return err
 		}
 	}
 
@@ -702,9 +714,12 @@ func checkBounds(c BoundCase) error {
 		return fmt.Errorf("absorption: (a∪b)∪b = %v, want a∪b = %v (a=%v b=%v)", x, ab, a, b)
 	}
 	for _, r := range probes {
-		if (a.Contains(r) || b.Contains(r)) && !ab.Contains(r) {
+		if (modelContains(a, r) || modelContains(b, r)) && !ab.Contains(r) {
 			return fmt.Errorf("%v.Union(%v) = %v loses the point %v", a, b, ab, r)
 		}
+	}
+	if err := containsAgrees(ab, probes); err != nil {
+		return err
 	}
 
 	// Extend
@@ -712,8 +727,11 @@ func checkBounds(c BoundCase) error {
 	if !e.Contains(p) {
 		return fmt.Errorf("%v.Extend(%v) = %v does not contain the point", a, p, e)
 	}
+	if err := containsAgrees(e, probes); err != nil {
+		return err
+	}
 	for _, r := range probes {
-		if a.Contains(r) && !e.Contains(r) {
+		if modelContains(a, r) && !e.Contains(r) {
 			return fmt.Errorf("Extend is not monotone: %v contains %v, %v.Extend(%v) = %v does not", a, r, a, p, e)
 		}
 	}
@@ -787,7 +805,7 @@ func checkBounds(c BoundCase) error {
 		return fmt.Errorf("%v does not intersect itself", a)
 	}
 	for _, r := range probes {
-		if a.Contains(r) && b.Contains(r) && !ia {
+		if modelContains(a, r) && modelContains(b, r) && !ia {
 			return fmt.Errorf("%v and %v both contain %v but do not intersect", a, b, r)
 		}
 	}
@@ -1273,7 +1291,22 @@ func drawBound(t *rapid.T, cls int, rel []orb.Bound) (orb.Bound, string) {
 	if !finiteB(b) { // arithmetic on huge coordinates overflowed: outside the finite domain
 		return orb.Bound{Min: orb.Point{0, 0}, Max: orb.Point{1, 1}}, "regular"
 	}
+	b.Min, b.Max = zeroSigns(t, b.Min), zeroSigns(t, b.Max)
 	return b, k
+}
+
+// zeroSigns turns a zero coordinate into -0 one time in three (+0 and -0 are the same coordinate:
+// an edge or a probe at either must behave alike).
+func zeroSigns(t *rapid.T, p orb.Point) orb.Point {
+	for i := range p {
+		if p[i] == 0 {
+			p[i] = 0
+			if rapid.IntRange(0, 2).Draw(t, "negzero") == 0 {
+				p[i] = math.Copysign(0, -1)
+			}
+		}
+	}
+	return p
 }
 
 func drawBound0(t *rapid.T, cls int, rel []orb.Bound) (orb.Bound, string) {
@@ -1372,7 +1405,7 @@ func drawProbe(t *rapid.T, cls int, bs []orb.Bound) orb.Point {
 	if !finiteB(orb.Bound{Min: p, Max: p}) {
 		p = orb.Point{0, 0}
 	}
-	return p
+	return zeroSigns(t, p)
 }
 
 // ---------------------------------------------------------------- vertex lists for Reverse / Orientation
@@ -1449,7 +1482,7 @@ func assumptions() {
 	stats.Assume("coordinates are finite (NaN makes == irreflexive; the statement's 'equivalence' excludes it); +0 and -0 are the same coordinate")
 	stats.Assume("collection members are never nil interfaces, and the nil interface itself is not one of the nine kinds")
 	stats.Assume("a Bound value used as a geometry stands for its two corners; an inverted Bound (min > max on an axis) denotes the empty set and contributes no vertex")
-	stats.Assume("Round is judged for |coordinate| <= 1e7 and factors 1, 3, 10, 1000, 1e6 (default), 1e7; tolerance 0.5/f*(1+1e-9) + 1e-15*|x|; on-grid tolerance |r*f - integer| <= 1e-9 + |r*f|*2^-50")
+	stats.Assume("Round is judged for |coordinate| <= 1e7 and factors 1, 3, 10, 1000, 1e6 (the documented default, the harness's own constant), 1e7; tolerance 0.5/f*(1+1e-9) + 1e-15*|x|; on-grid tolerance |r*f - integer| <= 1e-9 + |r*f|*2^-50")
 	stats.Assume("Orientation must equal the exact shoelace sign when every coordinate is a multiple of 1/2 with |v| <= 2^19 (float evaluation exact), or when |A| > 1e-9*sum|products| and |A| > 2^-990 and |v| <= 1e150; otherwise only its range {-1,0,1} and the < 3 distinct vertices => 0 rule are demanded")
 	stats.Assume("Intersects is compared with interval overlap only for two non-empty bounds (symmetry for all); Extend on an empty receiver must only contain the point")
 }
@@ -1706,7 +1739,7 @@ func TestSelfDetectors(t *testing.T) {
 	}
 	lastShared := func(g orb.Geometry) orb.Geometry { // only the last ring shared
 		p := g.(orb.Polygon)
-		out := p.Clone()
+		out := gen.DeepCopy(p).(orb.Polygon)
 		out[len(out)-1] = p[len(p)-1]
 		return out
 	}
